@@ -9,7 +9,7 @@ import re
 import genlib as G
 
 F = "routee-compass/src/plugin/output/default/traversal/traversal_ops.rs"
-OBLIGATIONS = ["create_route_linestring", "create_route_geojson", "create_edge_geometry", "create_branch_geometry"]
+OBLIGATIONS = ["create_route_linestring", "create_route_geojson", "create_edge_geometry", "create_branch_geometry", "create_tree_multilinestring"]
 MUST_FAIL = ["vacuity_probe"]
 
 HEAD = """#![allow(unused_imports, unused_variables, dead_code, unused_mut, unused_parens, unused_assignments)]
@@ -43,6 +43,17 @@ pub uninterp spec fn feature_of(t: EdgeTraversal, g: LineStringF32) -> Feature;
 /// the feature collection of a list of features, serialised (uninterpreted)
 pub uninterp spec fn collection_of(fs: Seq<Feature>) -> Value;
 #[verifier::external_body] pub fn verif_feature_collection(features: Vec<Feature>) -> (r: Result<Value, JsonError>) ensures r matches Ok(v) ==> v == collection_of(features@) { unimplemented!() }
+// tree outputs: the search tree is a HashMap (iteration order unspecified); `tree.values().map(|t| t.edge_traversal.edge_id).collect()` is ONE assumed helper: the edge ids of the
+// tree's branches, one per branch, in SOME order
+#[verifier::external_body] pub struct Tree { _p: u8 }                  // HashMap<VertexId, SearchTreeBranch>
+impl Tree { pub uninterp spec fn branch_edges(&self) -> Seq<EdgeId>; }
+#[verifier::external_body] pub fn verif_tree_edge_ids(tree: &Tree) -> (r: Vec<EdgeId>) ensures r@ == tree.branch_edges() { unimplemented!() }
+#[verifier::external_body] pub struct MultiLineStringF32 { _p: u8 }   // geo::MultiLineString<f32>
+pub uninterp spec fn multi_of(ls: Seq<LineStringF32>) -> MultiLineStringF32;
+// `Result<&T, E>::cloned()` (assumed: clones the value, keeps the error)
+#[verifier::external_body] pub fn verif_cloned(r: Result<&LineStringF32, OutputPluginError>) -> (o: Result<LineStringF32, OutputPluginError>)
+    ensures r matches Ok(v) ==> o matches Ok(w) && w == *v, r is Err ==> o is Err { unimplemented!() }
+impl MultiLineStringF32 { #[verifier::external_body] pub fn new(ls: Vec<LineStringF32>) -> (r: MultiLineStringF32) ensures r == multi_of(ls@) { unimplemented!() } }
 /// C20: the stored geometries of the route's edges, in route order
 pub open spec fn route_geoms(route: Seq<EdgeTraversal>, geoms: Seq<LineStringF32>) -> Seq<LineStringF32> { Seq::new(route.len(), |i: int| geoms[route[i].edge_id.0 as int]) }
 pub open spec fn all_present(route: Seq<EdgeTraversal>, geoms: Seq<LineStringF32>) -> bool { forall|i: int| 0 <= i < route.len() ==> (#[trigger] route[i]).edge_id.0 < geoms.len() }
@@ -97,6 +108,33 @@ def build(x):
         decreases route@.len() - verif_c,""")
     gj.insert_before(r"let result = verif_feature_collection\(features\)\?;", "    proof { assert(features@ =~= Seq::new(route@.len(), |i: int| feature_of(route@[i], geoms@[route@[i].edge_id.0 as int]))); }")
     fns.append(gj.text)
+    # ---- tree output: one member per tree branch; a missing geometry is an error ----
+    tm = x.fn(F, "fn create_tree_multilinestring")
+    tm.replace_macro_calls(r"format", "verif_format()")
+    tm.rewrite(r"tree: &HashMap<VertexId, SearchTreeBranch>", "tree: &Tree", 1, 1, rule="R3-dyn")
+    tm.rewrite(r"MultiLineString<f32>", "MultiLineStringF32", 1, 1, rule="R-path")
+    tm.rewrite(r"MultiLineString::new\(", "MultiLineStringF32::new(", 1, 1, rule="R-path")
+    tm.rewrite(r"LineString<f32>", "LineStringF32", 1, 2, rule="R-path")
+    tm.rewrite(r"let edge_ids = tree\s*\.values\(\)\s*\.map\(\|traversal\| traversal\.edge_traversal\.edge_id\)\s*\.collect::<Vec<_>>\(\);", "let edge_ids = verif_tree_edge_ids(tree);", 1, 1, rule="R-collect")
+    x.note("R-collect", "create_tree_multilinestring: `tree.values().map(|t| t.edge_traversal.edge_id).collect::<Vec<_>>()` written verif_tree_edge_ids(tree) (assumed: the edge ids of the tree's branches, one per branch, in some order)")
+    patt = re.compile(r"let tree_linestrings = edge_ids\s*\.iter\(\)\s*\.map\(\|eid\| \{(.*?)\n        \}\)\s*\.collect::<Result<Vec<LineStringF32>, OutputPluginError>>\(\)\?;", re.S)
+    if len(patt.findall(tm.text)) != 1:
+        raise G.Undecided("lost anchor: the geometry lookup pipeline of create_tree_multilinestring")
+    tm.rewrite(patt.pattern, r"let mut tree_linestrings: Vec<LineStringF32> = Vec::new();\n    let mut verif_b: usize = 0;\n    while verif_b < edge_ids.len() { let eid = &edge_ids[verif_b]; verif_b = verif_b + 1; let verif_x = {\1\n        }?; tree_linestrings.push(verif_x); }", 1, 1, flags=re.S, rule="R-trycollect")
+    x.note("R-trycollect", "create_tree_multilinestring: `edge_ids.iter().map(|eid| { B }).collect::<Result<Vec<_>, _>>()?` written as a loop pushing `{ B }?` (B verbatim)")
+    tm.rewrite(r"geom\.cloned\(\)", "verif_cloned(geom)", 0, 1, rule="R-collect")
+    tm.name_return("r")
+    tm.add_spec("""    ensures
+        // C20: "tree outputs contain exactly one entry per tree branch": member i is the STORED geometry of the edge of branch i ...
+        r matches Ok(g) ==> (forall|i: int| 0 <= i < tree.branch_edges().len() ==> (#[trigger] tree.branch_edges()[i]).0 < geoms@.len())
+            && g == multi_of(Seq::new(tree.branch_edges().len(), |i: int| geoms@[tree.branch_edges()[i].0 as int])),
+        // ... and a geometry that is missing from the table is an error, never a shorter collection
+        (exists|i: int| 0 <= i < tree.branch_edges().len() && (#[trigger] tree.branch_edges()[i]).0 >= geoms@.len()) ==> r is Err,""")
+    tm.add_loop_spec(1, """        invariant 0 <= verif_b <= edge_ids@.len(), edge_ids@ == tree.branch_edges(), tree_linestrings@.len() == verif_b,
+            forall|i: int| 0 <= i < verif_b ==> (#[trigger] edge_ids@[i]).0 < geoms@.len() && tree_linestrings@[i] == geoms@[edge_ids@[i].0 as int],
+        decreases edge_ids@.len() - verif_b,""")
+    tm.insert_before(r"let geometry = MultiLineStringF32::new\(tree_linestrings\);", "    proof { assert(tree_linestrings@ =~= Seq::new(tree.branch_edges().len(), |i: int| geoms@[tree.branch_edges()[i].0 as int])); }")
+    fns.append(tm.text)
     g = x.fn(F, "fn create_edge_geometry")
     g.replace_macro_calls(r"format", "verif_format()")
     g.rewrite(r"LineString<f32>", "LineStringF32", 2, 2, rule="R-path")
